@@ -18,6 +18,7 @@ import (
 	"crypto/x509"
 	"fmt"
 	"os"
+	"path/filepath"
 	"strings"
 	"sync"
 	"sync/atomic"
@@ -33,6 +34,7 @@ var M *material
 type stats struct {
 	evals, nontrivial, handshakes, unreproduced int64
 	outcomes                                    map[string]int64
+	dir                                         string // directory for the private paths of histories ("" = the material directory)
 }
 
 func check(c Case, st *stats) (fs []fail) {
@@ -343,7 +345,7 @@ func main() {
 		hsVerify.tickets = []bool{false}
 	} else {
 		full = axes{
-			certFile:   []string{"", "R1", "E1", "missing", "garbage"},
+			certFile:   []string{"", "R1", "E1", "missing"},
 			keyFile:    []string{"", "kR1", "kE1", "kE2", "missing"},
 			loadedCert: []string{"", "R1", "E1"},
 			loadedKey:  []string{"", "kR1", "kE1", "kE2", "kD1"},
@@ -464,15 +466,15 @@ func main() {
 	var mu sync.Mutex
 	var handshakes, unreproduced int64
 	n := len(shards)
-	rot := int(r.Seed % int64(n))
+	rot := int(r.Seed % 1000003)
 	if rot < 0 {
-		rot += n
+		rot = -rot
 	}
-	// samples: about 7 field cases spread over sweep A and up to 5 handshake cases that returned a configuration
-	stride := n/7 + 1
+	// samples: about 5 field cases spread over sweep A and up to 5 handshake cases that returned a configuration
+	stride := n/5 + 1
 	var bSamples atomic.Int32
 	enum.Parallel(n, r.OutOfTime, func(i int) {
-		sh := shards[(i+rot)%n]
+		sh := shards[(i+rot%n)%n]
 		st := &stats{outcomes: map[string]int64{}}
 		for fi, fl := range sh.fl {
 			for mi, md := range sh.modes {
@@ -486,7 +488,7 @@ func main() {
 				switch {
 				case sh.sweep == "A" && i%stride == 0 && fi == (i/stride*29+41+int(r.Seed%7))%len(sh.fl) && mi == len(sh.modes)-1:
 					r.Sample(c)
-				case sh.sweep != "A" && st.handshakes > hs0 && (i+fi)%5 == 2 && bSamples.Add(1) <= 5:
+				case sh.sweep != "A" && st.handshakes > hs0 && (i+fi)%5 == 2 && bSamples.Add(1) <= 4:
 					r.Sample(c)
 				}
 			}
@@ -552,6 +554,13 @@ func main() {
 		enum.Parallel(len(hs), r.OutOfTime, func(i int) {
 			sh := hs[(i+rot)%len(hs)]
 			st := &stats{outcomes: map[string]int64{}}
+			// a directory per shard: workers do not contend for one directory lock
+			st.dir = filepath.Join(M.dir, fmt.Sprintf("hd%d", i))
+			if err := os.Mkdir(st.dir, 0o755); err != nil {
+				st.dir = ""
+			} else {
+				defer os.Remove(st.dir)
+			}
 			var seqs int64
 			for k := range sh.f.alphabet {
 				steps := make([]Step, 0, len(sh.pre)+1)
@@ -598,7 +607,7 @@ func main() {
 		"http.Transport semantics are emulated for tls.Client handshakes by cloning the returned configuration and defaulting ServerName to the dialled host; the HTTP mode uses the returned transport itself",
 	)
 	M.cleanup()
-	r.Finish("sweep A: full product certificate file x key file x loaded certificate x loaded key x CA file x loaded CA x pool x server name x insecure x callback x tickets x cache (x entry point: quick = TLSClientAuth and TLSClient over everything; thorough = TLSClientAuth over everything, TLSTransport and TLSClient over the full product restricted to the quick identity alphabet), one call of the real entry point each, every field clause judged; sweeps B1/B2: the stated sub-products x server scenarios, a fresh call of the entry point plus one real TLS handshake over a buffered in-memory pipe against an in-process tls.Server each (through tls.Client on the returned configuration, or through http.Client.Do / RoundTrip of the returned object). evaluations = calls of TLSClientAuth/TLSTransport/TLSClient. non-trivial = first call of a case that returned a configuration (all field clauses evaluated) or returned an error where the reference demands one (certificate supplied, no usable pair); cases are distinct by construction (the enumerators never repeat an (options, entry point, mode) tuple within a sweep). history sweeps H-CA/H-ID/H-X: every ordered tuple with repetition of 2..3 (H-X: 2) steps of the stated step alphabets, executed as consecutive calls in one process on paths private to the sequence whose content is rewritten in place, made garbage or removed before each call; every call is judged with the per-call oracle for the material on disk at that moment, configurations returned earlier are re-judged after every later call, pairs additionally run handshakes on the last call; order reversal: one list of colliding cases over static files run forward and backward in one history, same result per case demanded", !restricted)
+	r.Finish("sweep A: full product certificate file x key file x loaded certificate x loaded key x CA file x loaded CA x pool x server name x insecure x callback x tickets x cache (x entry point: quick = TLSClientAuth and TLSClient over everything; thorough = TLSClientAuth over everything, TLSTransport and TLSClient over the full product restricted to a 375-identity sub-alphabet), one call of the real entry point each, every field clause judged; sweeps B1/B2: the stated sub-products x server scenarios, a fresh call of the entry point plus one real TLS handshake over a buffered in-memory pipe against an in-process tls.Server each (through tls.Client on the returned configuration, or through http.Client.Do / RoundTrip of the returned object). evaluations = calls of TLSClientAuth/TLSTransport/TLSClient. non-trivial = first call of a case that returned a configuration (all field clauses evaluated) or returned an error where the reference demands one (certificate supplied, no usable pair); cases are distinct by construction (the enumerators never repeat an (options, entry point, mode) tuple within a sweep). history sweeps H-CA/H-ID/H-X: every ordered tuple with repetition of 2..3 (H-X: 2) steps of the stated step alphabets, executed as consecutive calls in one process on paths private to the sequence whose content is rewritten in place, made garbage or removed before each call; every call is judged with the per-call oracle for the material on disk at that moment, configurations returned earlier are re-judged after every later call, pairs additionally run handshakes on the last call; order reversal: one list of colliding cases over static files run forward and backward in one history, same result per case demanded", !restricted)
 }
 
 type mode struct {
